@@ -190,7 +190,7 @@ FsReturn(h, res) ==
 (* clauses about a return value; the caller adds them to viol *)
 ReturnViol(h, res) ==
      FlagIf(res \notin {"ok", "lock", "rejected"}, "C04_OtherFailure")
-  \cup FlagIf(pending[h].txn # 0 /\ pending[h].marks = {} /\ res \notin {"ok", "lock"}, "C04_EmptyTxnFailed")
+  \cup FlagIf(pending[h].txn # 0 /\ pending[h].marks = {} /\ pending[h].op # "abort" /\ res \notin {"ok", "lock"}, "C04_EmptyTxnFailed")   \* ("abort": the caller itself gave up)
   \cup FlagIf(pending[h].op \in {"close", "clean"} /\ res \notin {"ok", "lock"}, "C16_GcFailed")
 
 FsCrash(h) ==
